@@ -4,7 +4,13 @@ set -e
 cd "$(dirname "$0")"
 mkdir -p gen _build
 (cd gen && coqc -Q ../../coq Crdt ../../coq/extract/Extract.v >/dev/null 2>&1)
+python3 - <<'PY'
+import json
+j=json.load(open("../KNOWN_FINDINGS.json"))
+rows=["  (%s, [%s]);" % (json.dumps(f["id"]), "; ".join(json.dumps(p) for p in f["properties"])) for f in j["findings"]]
+open("_build/known_table.ml","w").write("(* generated from KNOWN_FINDINGS.json by build.sh *)\nlet table = [\n" + "\n".join(rows) + "\n]\n")
+PY
 cp gen/model.ml gen/model.mli driver.ml known.ml monitors.ml main.ml _build/
 cd _build
-ocamlfind ocamlopt -O2 -w -a -o ../driver model.mli model.ml driver.ml known.ml monitors.ml main.ml 2>&1 || \
-ocamlfind ocamlopt -w -a -o ../driver model.mli model.ml driver.ml known.ml monitors.ml main.ml
+ocamlfind ocamlopt -O2 -w -a -o ../driver model.mli model.ml driver.ml known_table.ml known.ml monitors.ml main.ml 2>&1 || \
+ocamlfind ocamlopt -w -a -o ../driver model.mli model.ml driver.ml known_table.ml known.ml monitors.ml main.ml
